@@ -331,6 +331,170 @@ fn check_npm(prop: &str, level: u32) {
     }
 }
 
+
+// ------------------------------------------------------------------------------------------------ grammar based random cases (seeded)
+struct Rng(u64);
+impl Rng {
+    fn next(&mut self) -> u64 { let mut x = self.0; x ^= x << 13; x ^= x >> 7; x ^= x << 17; self.0 = x; x }
+    fn below(&mut self, n: u64) -> u64 { self.next() % n }
+    fn pick<'a, T>(&mut self, xs: &'a [T]) -> &'a T { &xs[self.below(xs.len() as u64) as usize] }
+    fn chance(&mut self, pct: u64) -> bool { self.below(100) < pct }
+}
+fn fmt_id(i: &Id) -> String { match i { Id::N(n) => n.to_string(), Id::A(s) => s.clone() } }
+fn fmt_key(k: &K) -> String {
+    let mut s = format!("{}.{}.{}", k.ma, k.mi, k.pa);
+    if !k.pre.is_empty() { s.push('-'); s.push_str(&k.pre.iter().map(fmt_id).collect::<Vec<_>>().join(".")); }
+    s
+}
+fn gen_num(r: &mut Rng) -> u64 {
+    if r.chance(70) { r.below(4) } else { *r.pick(&[5u64, 9, 10, 11, 99, 100, 65535, 4294967295, 4294967296, 900719925474098, 900719925474099]) }
+}
+fn gen_pre(r: &mut Rng) -> Vec<Id> {
+    let n = 1 + r.below(3);
+    (0..n).map(|_| if r.chance(45) { Id::N(if r.chance(80) { r.below(3) } else { *r.pick(&[10u64, 11, 4294967296, 900719925474100]) }) }
+                   else { Id::A(r.pick(&["alpha", "beta", "rc", "a", "b", "x-y", "0a", "a0", "pre-1", "A", "Z9"]).to_string()) }).collect()
+}
+/// a number spelled with an optional leading zero (loose mode)
+fn spell_num(r: &mut Rng, n: u64) -> String { if r.chance(12) { format!("0{}", n) } else { n.to_string() } }
+struct GenPartial { text: String, p: Partial }
+fn gen_partial(r: &mut Rng) -> GenPartial {
+    let wild = |r: &mut Rng| r.pick(&["x", "X", "*"]).to_string();
+    let shape = r.below(10);
+    let (ma, mi, pa) = (gen_num(r), gen_num(r), gen_num(r));
+    let mut text = String::new();
+    if r.chance(10) { text.push('v'); }
+    let mut p = Partial { text: "", ma: None, mi: None, pa: None, pre: vec![] };
+    match shape {
+        0 => { text.push_str(&wild(r)); }
+        1 => { text.push_str(&spell_num(r, ma)); p.ma = Some(ma); }
+        2 => { text.push_str(&format!("{}.{}", spell_num(r, ma), wild(r))); p.ma = Some(ma); }
+        3 => { text.push_str(&format!("{}.{}", spell_num(r, ma), spell_num(r, mi))); p.ma = Some(ma); p.mi = Some(mi); }
+        4 => { text.push_str(&format!("{}.{}.{}", spell_num(r, ma), spell_num(r, mi), wild(r))); p.ma = Some(ma); p.mi = Some(mi); }
+        5 => { text.push_str(&format!("{}.{}.{}", spell_num(r, ma), wild(r), wild(r))); p.ma = Some(ma); }
+        _ => {
+            text.push_str(&format!("{}.{}.{}", spell_num(r, ma), spell_num(r, mi), spell_num(r, pa)));
+            p.ma = Some(ma); p.mi = Some(mi); p.pa = Some(pa);
+            if r.chance(45) {
+                let pre = gen_pre(r);
+                // loose: the hyphen may be left out when the tag starts with a letter
+                let starts_alpha = matches!(&pre[0], Id::A(s) if s.as_bytes()[0].is_ascii_alphabetic());
+                if !(starts_alpha && r.chance(15)) { text.push('-'); }
+                text.push_str(&pre.iter().map(fmt_id).collect::<Vec<_>>().join("."));
+                p.pre = pre;
+            }
+            if r.chance(15) { text.push_str(*r.pick(&["+b", "+build.5", "+0", "+exp.sha.5114f85"])); }
+        }
+    }
+    GenPartial { text, p }
+}
+struct GenSimple { text: String, cs: CSet }
+fn gen_simple(r: &mut Rng) -> GenSimple {
+    loop {
+        let gp = gen_partial(r);
+        let form = r.below(10);
+        let blank = if r.chance(20) { " " } else { "" };
+        let (text, cs, known_dev) = match form {
+            0 | 1 => (gp.text.clone(), npm_primitive("", &gp.p), false),
+            2 => (format!("~{}{}", blank, gp.text), npm_tilde(&gp.p), false),
+            3 => (format!("~>{}{}", blank, gp.text), npm_tilde(&gp.p), false),
+            4 => (format!("^{}{}", blank, gp.text), npm_caret(&gp.p), gp.p.ma == Some(0) && gp.p.mi.is_none()),
+            _ => { let op = *r.pick(&["=", "<", "<=", ">", ">="]); (format!("{}{}{}", op, blank, gp.text), npm_primitive(op, &gp.p), op == "<" && gp.p.ma.is_some() && gp.p.mi.is_none()) }
+        };
+        // known findings are kept out of the search
+        if known_dev { continue; }
+        return GenSimple { text, cs };
+    }
+}
+fn gen_alternative(r: &mut Rng) -> (String, Option<CSet>) {
+    if r.chance(12) {
+        let (f, t) = (gen_partial(r), gen_partial(r));
+        // the hyphen form needs plain partials: no `v`less restrictions, but a leading `v` is fine
+        return (format!("{} - {}", f.text, t.text), Some(npm_hyphen(&f.p, &t.p)));
+    }
+    if r.chance(4) { return (r.pick(&["foo", "bar baz", "#", "a|b"]).to_string(), None); }
+    let n = 1 + if r.chance(60) { 0 } else { 1 + r.below(3) };
+    let mut text = String::new();
+    let mut cs: CSet = vec![];
+    for i in 0..n {
+        if i > 0 { text.push_str(if r.chance(15) { "  " } else { " " }); }
+        if r.chance(6) { text.push_str(*r.pick(&["foo ", "#1 ", "a|b "])); }
+        let s = gen_simple(r);
+        text.push_str(&s.text);
+        cs.extend(s.cs);
+    }
+    if r.chance(5) { text.push_str(" junk"); }
+    (text, Some(cs))
+}
+fn gen_range(r: &mut Rng) -> Case {
+    let n = 1 + if r.chance(65) { 0 } else { 1 + r.below(3) };
+    let mut text = String::new();
+    let mut rr: RefRange = vec![];
+    for i in 0..n {
+        if i > 0 { text.push_str(*r.pick(&[" || ", "||", " ||", "|| ", "  ||  "])); }
+        let (t, cs) = gen_alternative(r);
+        text.push_str(&t);
+        if let Some(cs) = cs { rr.push(cs); }
+    }
+    if r.chance(5) { text = format!(" {} ", text); }
+    Case { text, rr }
+}
+/// versions around every bound of the reference
+fn probe_versions(rr: &RefRange, r: &mut Rng) -> Vec<K> {
+    let mut out: Vec<K> = vec![k3(0, 0, 0), k0(0, 0, 0), k3(1, 2, 3), k3(900719925474099, 0, 0)];
+    for cs in rr { for c in cs {
+        let k = &c.k;
+        out.push(k.clone());
+        out.push(K { pre: vec![], ..k.clone() });
+        out.push(K { pre: vec![Id::N(0)], ..k.clone() });
+        out.push(K { pre: vec![Id::A("alpha".into())], ..k.clone() });
+        out.push(K { pre: vec![Id::A("zz".into())], ..k.clone() });
+        if !k.pre.is_empty() { let mut p = k.pre.clone(); p.push(Id::N(0)); out.push(K { pre: p, ..k.clone() }); let mut q = k.pre.clone(); q.pop(); if !q.is_empty() { out.push(K { pre: q, ..k.clone() }); } }
+        if k.pa > 0 { out.push(k3(k.ma, k.mi, k.pa - 1)); out.push(K { pa: k.pa - 1, pre: vec![Id::A("rc".into())], ..k.clone() }); }
+        if k.pa < 900719925474099 { out.push(k3(k.ma, k.mi, k.pa + 1)); out.push(k0(k.ma, k.mi, k.pa + 1)); }
+        if k.mi > 0 { out.push(k3(k.ma, k.mi - 1, 900719925474099)); }
+        if k.mi < 900719925474099 { out.push(k3(k.ma, k.mi + 1, 0)); }
+        if k.ma > 0 { out.push(k3(k.ma - 1, 900719925474099, 900719925474099)); }
+        if k.ma < 900719925474099 { out.push(k3(k.ma + 1, 0, 0)); out.push(k0(k.ma + 1, 0, 0)); }
+    } }
+    for _ in 0..4 { out.push(K { ma: gen_num(r), mi: gen_num(r), pa: gen_num(r), pre: if r.chance(40) { gen_pre(r) } else { vec![] } }); }
+    // the properties quantify over versions with components in [0, MAX_SAFE_INTEGER]
+    out.retain(|k| k.ma <= 900719925474099 && k.mi <= 900719925474099 && k.pa <= 900719925474099);
+    out
+}
+fn check_npm_random(prop: &str, seed: u64, n: usize) {
+    let mut r = Rng(0x9E3779B97F4A7C15 ^ (seed.wrapping_add(1)).wrapping_mul(0xD1B54A32D192ED03));
+    for _ in 0..8 { r.next(); }
+    for _ in 0..n {
+        let c = gen_range(&mut r);
+        let ks = probe_versions(&c.rr, &mut r);
+        match Range::parse(&c.text) {
+            Ok(range) => {
+                for k in &ks {
+                    let vt = fmt_key(k);
+                    let v = match Version::parse(&vt) { Ok(v) => v, Err(_) => continue };
+                    let got = range.satisfies(&v);
+                    let want = ref_sat(&c.rr, k);
+                    if got != want { fail(prop, "satisfies == npm desugaring (random case)", format!("range `{}` version `{}`", c.text, vt), format!("crate: {} npm: {} (parsed as `{}`)", got, want, range)); }
+                }
+            }
+            Err(_) => {
+                if let Some(k) = ks.iter().find(|k| ref_sat(&c.rr, k)) { fail(prop, "parse fails only when nothing can satisfy (random case)", format!("range `{}`", c.text), format!("npm admits `{}`", fmt_key(k))); }
+            }
+        }
+    }
+}
+fn dump_random(seed: u64, n: usize) {
+    // development aid: print the generated cases as JSON lines (text, versions, expected) for an external oracle
+    let mut r = Rng(0x9E3779B97F4A7C15 ^ (seed.wrapping_add(1)).wrapping_mul(0xD1B54A32D192ED03));
+    for _ in 0..8 { r.next(); }
+    for _ in 0..n {
+        let c = gen_range(&mut r);
+        let ks = probe_versions(&c.rr, &mut r);
+        let vs: Vec<String> = ks.iter().map(|k| format!("[\"{}\",{}]", fmt_key(k), ref_sat(&c.rr, k))).collect();
+        println!("{{\"range\":\"{}\",\"versions\":[{}]}}", c.text.replace('\\', "\\\\").replace('"', "\\\""), vs.join(","));
+    }
+}
+
 // ------------------------------------------------------------------------------------------------ C04 / C16
 fn hash_of(v: &Version) -> u64 { let mut h = DefaultHasher::new(); v.hash(&mut h); h.finish() }
 /// the reference key of a version text `M.m.p[-pre][+build]`, built from the text itself (not from what the crate parsed)
@@ -659,9 +823,11 @@ fn main() {
     let args: Vec<String> = std::env::args().collect();
     let prop = args.get(1).map(|s| s.as_str()).unwrap_or("");
     let level: u32 = args.get(2).and_then(|s| s.parse().ok()).unwrap_or(0);
+    let seed: u64 = args.get(3).and_then(|s| s.parse().ok()).unwrap_or(0);
     std::panic::set_hook(Box::new(|_| {}));
     match prop {
-        "C01" | "C02" | "C03" => check_npm(prop, level),
+        "C01" | "C02" | "C03" => { check_npm(prop, level); check_npm_random(prop, seed, if level > 0 { 60000 } else { 6000 }); }
+        "DUMP" => { dump_random(seed, 400); return; }
         "C04" => check_c04(),
         "C16" => check_c16(),
         "C07" | "C08" | "C09" | "C10" | "C15" => check_setops(prop),
